@@ -12,7 +12,7 @@ RULE = ("Hypothesis-generated arguments for size_to_qty / risk_to_qty / sum_floa
         "arithmetic of the shortest reprs, and end-to-end acceptance of Order(qty, price) by a fresh SpotExchange and a "
         "fresh 1x FuturesExchange holding exactly the capital. distinct = digest of the argument tuple; non-trivial = the "
         "exact quotient lies within 2 ulps of a precision-lattice point, or fee>0 with precision<8, or (decimal helpers) "
-        "the float sum differs from the decimal sum, or (rounding) the input is within 2 ulps of a lattice point.")
+        "the float sum differs from the decimal sum, or (rounding) the input is within 2 ulps of a lattice point or a decimal hair (under 1e-5 step) below one.")
 ASSUMPTIONS = [
     "capital 1..1e7, price 1e-6..1e6, fee 0..0.01, precision 0..8, risk 0.01..100 %, as in the property's quantifier",
     "'never costs more than the capital' is decided by what a fresh account does with the order (spot: quote reservation; "
@@ -170,7 +170,9 @@ def check_rounding(x, precision):
         st = 10.0 ** (-dneg)
         if f2 > x * 1000 + 2 * ulp(x * 1000) or x * 1000 - f2 >= st + 2 * ulp(x * 1000):
             vios.append(('C17:round_decimals_down:negative-decimals', f'round_decimals_down({x * 1000!r},{dneg}) = {f2!r}'))
-    return vios, (['rounding:boundary'] if near else []), bool(near or exact_floor == 0)
+    scaled = Fraction(x) * 10 ** precision
+    hair = (not near) and 0 < (math.ceil(scaled) - scaled) < Fraction(1, 10 ** 5)
+    return vios, (['rounding:boundary'] if near else []) + (['rounding:hair-below-lattice-point'] if hair else []), bool(near or hair or exact_floor == 0)
 
 
 def check_limit_stop_loss(entry, dist, side, max_pct):
@@ -329,7 +331,16 @@ def run_shard(acc, shard, nshards, seed, tier):
     @st.composite
     def round_cases(draw):
         p = draw(precs)
-        if draw(st.booleans()):
+        style = draw(st.sampled_from(['ulps', 'ulps', 'hair', 'free', 'free']))
+        if style == 'hair':
+            # a lattice point minus / plus a decimal hair far below the step (1e-6 .. 1e-13 of a step), e.g. 0.29999999 at precision 1
+            from decimal import Decimal
+            k = draw(st.integers(1, 10 ** 6))
+            j = draw(st.integers(6, 13))
+            m = draw(st.sampled_from([1, 1, 2, 5, 9]))
+            sgn = draw(st.sampled_from([-1, -1, 1]))
+            x = float(Decimal(k) / (Decimal(10) ** p) + sgn * m * Decimal(10) ** -(p + j))
+        elif style == 'ulps':
             k = draw(st.integers(0, 10 ** 7))
             x = k / 10 ** p
             shift = draw(st.integers(-2, 2))
